@@ -45,8 +45,9 @@ KeptIter(lines) == SplitLines(WriteIterText(lines)) = lines
      <<"new", s>>            s = cls()
      <<"set", s, L>>         a format's setter fills s.lines with the list L
      <<"append", s, l>>      s.lines is edited in place
-     <<"write", s, d, how>>  s.write(path of d | open handle on d)
-     <<"read", s, d, how>>   s = cls.read(path of d | open handle on d)
+     <<"write", s, d, how>>  s.write(path of d | open handle on d); how = "binary": a handle opened in
+                             binary mode is refused ("A file opened in 'text' mode is required")
+     <<"read", s, d, how>>   s = cls.read(path of d | open handle on d); "binary" is refused
      <<"copy", s, t>>        t = s.copy()
      <<"str", s>>            str(s)
      <<"writeiter", d, L>>   TextFile.write_iter(d, L)
@@ -65,8 +66,8 @@ TFApply(st, c) ==
   CASE c[1] = "new" -> TFSetObj(st, TRUE, c[2], <<>>)
     [] c[1] = "set" -> TFSetObj(st, st.obj[c[2]].live, c[2], c[3])
     [] c[1] = "append" -> TFSetObj(st, st.obj[c[2]].live, c[2], Append(st.obj[c[2]].lines, c[3]))
-    [] c[1] = "write" -> TFSetDisk(st, st.obj[c[2]].live, c[3], WriteText(st.obj[c[2]].lines), WantAfterWrite(st.obj[c[2]].lines))
-    [] c[1] = "read" -> TFSetObj(st, st.disk[c[3]].exists, c[2], SplitLines(st.disk[c[3]].text))
+    [] c[1] = "write" -> TFSetDisk(st, st.obj[c[2]].live /\ c[4] # "binary", c[3], WriteText(st.obj[c[2]].lines), WantAfterWrite(st.obj[c[2]].lines))
+    [] c[1] = "read" -> TFSetObj(st, st.disk[c[3]].exists /\ c[4] # "binary", c[2], SplitLines(st.disk[c[3]].text))
     [] c[1] = "copy" -> TFSetObj(st, st.obj[c[2]].live /\ c[2] # c[3], c[3], st.obj[c[2]].lines)
     [] c[1] = "str" -> TFStay(st, st.obj[c[2]].live, TFRet("text", StrText(st.obj[c[2]].lines)))
     [] c[1] = "writeiter" -> TFSetDisk(st, TRUE, c[2], WriteIterText(c[3]), c[3])
